@@ -17,71 +17,43 @@ Section Proofs.
   Hypothesis sign_inj : forall k k' mm, sign k mm = sign k' mm -> k = k'.
 
   Lemma extract_signing_in (role : list (keydesc cert)) c :
-    In c (extract_signing role) <-> exists u, In (u, c) role /\ u <> Some Encryption.
+    In c (extract_signing blank role) <-> exists u, In (u, c) role /\ u <> Some Encryption /\ blank c = false.
   Proof.
     unfold extract_signing. rewrite in_flat_map. split.
-    - intros [[u c'] [Hin Hc]]. cbn [fst snd] in Hc. destruct u as [[|]|]; cbn in Hc.
-      + destruct Hc as [<-|[]]. exists (Some Signing). split; [exact Hin|discriminate].
+    - intros [[u c'] [Hin Hc]]. cbn [fst snd] in Hc. destruct (blank c') eqn:Eb; [destruct Hc|].
+      destruct u as [[|]|]; cbn in Hc.
+      + destruct Hc as [<-|[]]. exists (Some Signing). repeat split; [exact Hin|discriminate|exact Eb].
       + contradiction.
-      + destruct Hc as [<-|[]]. exists None. split; [exact Hin|discriminate].
-    - intros [u [Hin Hu]]. exists (u, c). split; [exact Hin|]. cbn [fst snd].
+      + destruct Hc as [<-|[]]. exists None. repeat split; [exact Hin|discriminate|exact Eb].
+    - intros [u (Hin & Hu & Hb)]. exists (u, c). split; [exact Hin|]. cbn [fst snd]. rewrite Hb.
       destruct u as [[|]|]; cbn; auto; try (contradiction Hu; reflexivity).
   Qed.
 
-  Lemma walk_published (md : metadata cert) e c :
-    In c (walk_certs md (Some e)) <-> published_for_signing md e c.
+  Lemma signing_certs_published (md : metadata cert) e c :
+    In c (signing_certs blank md (Some e)) <-> published_for_signing blank md e c.
   Proof.
-    unfold walk_certs, published_for_signing. destruct (lookup_md e md) as [roles|].
+    unfold signing_certs, published_for_signing. destruct (lookup_md e md) as [roles|].
     - rewrite in_flat_map. split.
-      + intros [role [Hr Hc]]. apply extract_signing_in in Hc as [u [Hin Hu]].
+      + intros [role [Hr Hc]]. apply extract_signing_in in Hc as [u (Hin & Hu & Hb)].
         exists roles, role, u. auto.
-      + intros (roles' & role & u & [= <-] & Hr & Hin & Hu). exists role. split; [exact Hr|].
+      + intros (roles' & role & u & [= <-] & Hr & Hin & Hu & Hb). exists role. split; [exact Hr|].
         apply extract_signing_in. exists u. auto.
     - split; [intros []|]. intros (roles & _ & _ & H & _). discriminate.
   Qed.
 
-  Lemma blank_walk_iff (md : metadata cert) issuer :
-    existsb blank (walk_certs md issuer) = true <-> blank_published blank md issuer.
+  Lemma candidates_trusted (x : input cert msg sig) c : In c (candidates blank x) -> trusted_for blank x c.
   Proof.
-    unfold blank_published. rewrite existsb_exists. split.
-    - intros [c [Hin Hb]]. destruct issuer as [e|]; [|destruct Hin].
-      exists e, c. split; [reflexivity|]. split; [apply walk_published; exact Hin|exact Hb].
-    - intros (e & c & -> & Hp & Hb). exists c. split; [apply walk_published; exact Hp|exact Hb].
-  Qed.
-
-  Lemma signing_certs_walk (md : metadata cert) issuer c :
-    In c (signing_certs blank md issuer) -> In c (walk_certs md issuer).
-  Proof. unfold signing_certs. destruct (existsb blank (walk_certs md issuer)); [intros []|auto]. Qed.
-
-  Lemma signing_certs_noblank (md : metadata cert) issuer :
-    ~ blank_published blank md issuer -> signing_certs blank md issuer = walk_certs md issuer.
-  Proof.
-    intros H. unfold signing_certs. destruct (existsb blank (walk_certs md issuer)) eqn:E; [|reflexivity].
-    exfalso. apply H, blank_walk_iff, E.
-  Qed.
-
-  Lemma signing_certs_published (md : metadata cert) e c :
-    In c (signing_certs blank md (Some e)) -> published_for_signing md e c.
-  Proof. intros H. apply walk_published, signing_certs_walk, H. Qed.
-
-  Lemma candidates_trusted (x : input cert msg sig) c :
-    sguard blank x -> In c (candidates blank x) -> trusted_for x c.
-  Proof.
-    unfold candidates, trusted_for. intros G.
-    destruct (detached x) eqn:Ed.
-    - intros H. destruct (claimed x) as [e|] eqn:Ec.
-      + left. exists e. split; [reflexivity|]. apply signing_certs_published; exact H.
-      + apply signing_certs_walk in H. destruct H.
-    - destruct (signing_certs blank (md x) (claimed x)) as [|c0 r] eqn:Es.
-      + destruct (only_md x) eqn:Eo; [intros []|]. intros H. right. repeat split; auto.
-        intros e c' Hc Hp.
-        assert (Hnb : ~ blank_published blank (md x) (claimed x)) by (apply G; assumption).
-        rewrite (signing_certs_noblank _ _ Hnb) in Es. rewrite Hc in Es.
-        apply walk_published in Hp. rewrite Es in Hp. exact Hp.
-      + intros H. destruct (claimed x) as [e|] eqn:Ec.
-        * left. exists e. split; [reflexivity|]. apply signing_certs_published. rewrite Es. exact H.
-        * assert (Hin : In c0 (signing_certs blank (md x) None)) by (rewrite Es; left; reflexivity).
-          apply signing_certs_walk in Hin. destruct Hin.
+    unfold candidates, select, trusted_for.
+    destruct (claimed x) as [e|] eqn:Ec.
+    - destruct (detached x) eqn:Ed.
+      + intros H. left. exists e. split; [reflexivity|]. apply signing_certs_published; exact H.
+      + destruct (signing_certs blank (md x) (Some e)) as [|c0 r] eqn:Es.
+        * destruct (only_md x) eqn:Eo; [intros []|]. intros H. right. repeat split; auto.
+          intros e' c' [= <-] Hp. apply signing_certs_published in Hp. rewrite Es in Hp. exact Hp.
+        * intros H. left. exists e. split; [reflexivity|]. apply signing_certs_published. rewrite Es. exact H.
+    - cbn [signing_certs]. destruct (detached x) eqn:Ed; [intros []|].
+      destruct (only_md x) eqn:Eo; [intros []|]. intros H. right. repeat split; auto.
+      intros e c' [=].
   Qed.
 
   Lemma try_certs_handed cs mm ss c : In c (snd (try_certs verify cs mm ss)) -> In c cs.
@@ -107,7 +79,7 @@ Section Proofs.
   Lemma try_detached_handed cs mm ss c : In c (snd (try_detached verify readable cs mm ss)) -> In c cs.
   Proof.
     induction cs as [|c0 r IH]; cbn [try_detached]; [intros []|].
-    destruct (readable c0); [|intros []].
+    destruct (readable c0); [|intros H; right; exact (IH H)].
     destruct (verify c0 mm ss).
     - cbn. intros [<-|[]]. left; reflexivity.
     - destruct (try_detached verify readable r mm ss) as [ok h]. cbn [snd] in *.
@@ -115,53 +87,29 @@ Section Proofs.
   Qed.
 
   Lemma try_detached_true cs mm ss :
-    fst (try_detached verify readable cs mm ss) = true -> exists c, In c cs /\ verify c mm ss = true.
+    fst (try_detached verify readable cs mm ss) = true <-> exists c, In c cs /\ readable c = true /\ verify c mm ss = true.
   Proof.
-    induction cs as [|c0 r IH]; cbn [try_detached]; [discriminate|].
-    destruct (readable c0); [|discriminate].
-    destruct (verify c0 mm ss) eqn:V.
-    - intros _. exists c0. split; [left; reflexivity|exact V].
-    - destruct (try_detached verify readable r mm ss) as [ok h]. cbn [fst] in *. intros H.
-      destruct (IH H) as [c [Hin Hv]]. exists c. split; [right; exact Hin|exact Hv].
-  Qed.
-
-  Lemma hits_unreadable_iff cs mm ss :
-    hits_unreadable verify readable cs mm ss = true <-> unreadable_first verify readable cs mm ss.
-  Proof.
-    unfold unreadable_first. induction cs as [|c0 r IH]; cbn [hits_unreadable].
-    - split; [discriminate|]. intros (pre & c & post & E & _). destruct pre; discriminate.
+    induction cs as [|c0 r IH]; cbn [try_detached].
+    - split; [discriminate|intros [c [[] _]]].
     - destruct (readable c0) eqn:R.
       + destruct (verify c0 mm ss) eqn:V.
-        * split; [discriminate|]. intros (pre & c & post & E & Rc & Hpre). destruct pre as [|p pre'].
-          -- cbn in E. injection E as E1 E2. subst c. congruence.
-          -- cbn in E. injection E as E1 E2. subst p. rewrite (Hpre c0 (or_introl eq_refl)) in V. discriminate.
-        * rewrite IH. split.
-          -- intros (pre & c & post & E & Rc & Hpre). subst r. exists (c0 :: pre), c, post. split; [reflexivity|].
-             split; [exact Rc|]. intros c' [E'|Hin]; [subst c'; exact V|exact (Hpre c' Hin)].
-          -- intros (pre & c & post & E & Rc & Hpre). destruct pre as [|p pre'].
-             ++ cbn in E. injection E as E1 E2. subst c. congruence.
-             ++ cbn in E. injection E as E1 E2. subst p r. exists pre', c, post. split; [reflexivity|]. split; [exact Rc|].
-                intros c' Hin. apply Hpre. right; exact Hin.
-      + split; [intros _|reflexivity]. exists [], c0, r. split; [reflexivity|]. split; [exact R|intros c' []].
-  Qed.
-
-  Lemma try_detached_complete cs mm ss :
-    hits_unreadable verify readable cs mm ss = false ->
-    (exists c, In c cs /\ verify c mm ss = true) -> fst (try_detached verify readable cs mm ss) = true.
-  Proof.
-    induction cs as [|c0 r IH]; cbn [hits_unreadable try_detached].
-    - intros _ [c [[] _]].
-    - destruct (readable c0); [|discriminate].
-      destruct (verify c0 mm ss) eqn:V; [reflexivity|].
-      intros Hh [c [[<-|Hin] Hv]]; [congruence|].
-      destruct (try_detached verify readable r mm ss) as [ok h]. cbn [fst] in *. apply IH; [exact Hh|].
-      exists c. auto.
+        * cbn. split; [intros _; exists c0; repeat split; [left; reflexivity|exact R|exact V]|reflexivity].
+        * destruct (try_detached verify readable r mm ss) as [ok h]. cbn [fst] in *. rewrite IH. split.
+          -- intros [c (Hin & Hr & Hv)]. exists c. repeat split; [right; exact Hin|exact Hr|exact Hv].
+          -- intros [c ([E|Hin] & Hr & Hv)]; [subst c; congruence|].
+             exists c. repeat split; [exact Hin|exact Hr|exact Hv].
+      + rewrite IH. split.
+        * intros [c (Hin & Hr & Hv)]. exists c. repeat split; [right; exact Hin|exact Hr|exact Hv].
+        * intros [c ([E|Hin] & Hr & Hv)]; [subst c; congruence|].
+          exists c. repeat split; [exact Hin|exact Hr|exact Hv].
   Qed.
 
   Lemma accept_true (x : input cert msg sig) :
     fst (accept verify readable blank x) = true -> exists c, In c (candidates blank x) /\ verify c (m x) (s x) = true.
   Proof.
-    unfold accept. destruct (detached x); [apply try_detached_true|apply try_certs_true].
+    unfold accept. destruct (detached x).
+    - intros H. apply try_detached_true in H as [c (Hin & _ & Hv)]. exists c. auto.
+    - apply try_certs_true.
   Qed.
 
   Lemma accept_handed (x : input cert msg sig) c :
@@ -170,92 +118,44 @@ Section Proofs.
     unfold accept. destruct (detached x); [apply try_detached_handed|apply try_certs_handed].
   Qed.
 
-  (* soundness: readable certificates or not; outside finding C03-F2 *)
-  Lemma accept_sound (x : input cert msg sig) :
-    sguard blank x -> sound cert_of sign x (accept verify readable blank x).
+  (* soundness: every input -- certificates that do not load, KeyDescriptors without certificate, either flag *)
+  Lemma accept_sound (x : input cert msg sig) : sound cert_of sign blank x (accept verify readable blank x).
   Proof.
-    intros G. unfold sound. split; [|split].
-    - intros c Hc. apply candidates_trusted; [exact G|]. exact (accept_handed _ _ Hc).
+    unfold sound. split; [|split].
+    - intros c Hc. apply candidates_trusted. exact (accept_handed _ _ Hc).
     - intros H. apply accept_true in H as [c [_ Hv]]. apply verify_spec in Hv as [k [_ Hs]].
       exists k. exact Hs.
     - intros H k Hk. apply accept_true in H as [c [Hin Hv]]. apply verify_spec in Hv as [k' [-> Hs]].
-      unfold made_by in Hk. rewrite Hk in Hs. apply sign_inj in Hs. subst k'.
-      apply candidates_trusted; [exact G|exact Hin].
+      unfold made_by in Hk. rewrite Hk in Hs. apply sign_inj in Hs. subst k'. apply candidates_trusted; exact Hin.
   Qed.
 
-  (* with the default only_use_keys_in_metadata = true soundness has no exception at all *)
-  Lemma accept_sound_default (x : input cert msg sig) :
-    only_md x = true -> sound cert_of sign x (accept verify readable blank x).
-  Proof. intros Ho. apply accept_sound. intros Hf. congruence. Qed.
+  (* completeness needs one more fact about the world: a certificate that verifies something loads *)
+  Hypothesis verify_readable : forall c mm ss, verify c mm ss = true -> readable c = true.
 
-  (* detached signatures never use the embedded certificate: no exception either *)
-  Lemma accept_sound_detached (x : input cert msg sig) :
-    detached x = true -> sound cert_of sign x (accept verify readable blank x).
-  Proof. intros Hd. apply accept_sound. intros _ Hf. congruence. Qed.
-
-  (* completeness: outside the finding classes *)
-  Lemma accept_complete (x : input cert msg sig) :
-    guard verify readable blank x -> complete cert_of sign x (accept verify readable blank x).
+  Lemma accept_complete (x : input cert msg sig) : complete cert_of sign blank x (accept verify readable blank x).
   Proof.
-    unfold complete, accept, guard. intros [Gb G] k e Hk He Hp.
+    unfold complete, accept. intros k e Hk He Hp.
     assert (Hv : verify (cert_of k) (m x) (s x) = true).
     { apply verify_spec. exists k. split; [reflexivity|exact Hk]. }
-    apply walk_published in Hp. rewrite <- He in Hp.
-    pose proof (signing_certs_noblank _ _ Gb) as Es.
-    destruct (detached x) eqn:Ed.
-    - apply try_detached_complete.
-      + unfold candidates. rewrite Ed, Es.
-        destruct (hits_unreadable verify readable _ (m x) (s x)) eqn:Hh; [|reflexivity].
-        exfalso. apply (G eq_refl). apply hits_unreadable_iff. exact Hh.
-      + exists (cert_of k). split; [|exact Hv]. unfold candidates. rewrite Ed, Es. exact Hp.
-    - apply try_certs_true. exists (cert_of k). split; [|exact Hv].
-      unfold candidates. rewrite Ed, Es. destruct (walk_certs (md x) (claimed x)); [contradiction|exact Hp].
+    apply signing_certs_published in Hp.
+    assert (Hin : In (cert_of k) (candidates blank x)).
+    { unfold candidates, select. rewrite He. destruct (detached x); [exact Hp|].
+      destruct (signing_certs blank (md x) (Some e)); [contradiction|exact Hp]. }
+    destruct (detached x).
+    - apply try_detached_true. exists (cert_of k). repeat split; [exact Hin|exact (verify_readable _ _ _ Hv)|exact Hv].
+    - apply try_certs_true. exists (cert_of k). split; [exact Hin|exact Hv].
   Qed.
 
-  Lemma trust_holds (x : input cert msg sig) :
-    gspec cert_of sign verify readable blank x (accept verify readable blank x).
+  Lemma trust_holds (x : input cert msg sig) : spec cert_of sign blank x (accept verify readable blank x).
   Proof. split; [apply accept_sound|apply accept_complete]. Qed.
-
-  (* both guards hold whenever every KeyDescriptor the issuer publishes for signing carries a certificate
-     that loads (stated on the metadata, not on the walk order) *)
-  Lemma usable_md_guards (x : input cert msg sig) :
-    (forall e c, claimed x = Some e -> published_for_signing (md x) e c -> readable c = true /\ blank c = false) ->
-    sguard blank x /\ guard verify readable blank x.
-  Proof.
-    intros H. assert (Hnb : ~ blank_published blank (md x) (claimed x)).
-    { intros (e & c & He & Hp & Hb). destruct (H e c He Hp) as [_ Hb']. congruence. }
-    split; [intros _ _; exact Hnb|]. split; [exact Hnb|].
-    intros _ (pre & c & post & E & Rc & _).
-    destruct (claimed x) as [e|] eqn:Ec.
-    - assert (Hin : In c (walk_certs (md x) (Some e))) by (rewrite E; apply in_or_app; right; left; reflexivity).
-      apply walk_published in Hin. destruct (H e c eq_refl Hin) as [Hr _]. congruence.
-    - cbn [walk_certs] in E. destruct pre; discriminate.
-  Qed.
-
-  Lemma trust_usable_md (x : input cert msg sig) :
-    (forall e c, claimed x = Some e -> published_for_signing (md x) e c -> readable c = true /\ blank c = false) ->
-    spec cert_of sign x (accept verify readable blank x).
-  Proof.
-    intros H. destruct (usable_md_guards x H) as [G1 G2].
-    split; [apply accept_sound, G1|apply accept_complete, G2].
-  Qed.
-
-  (* enveloped (XML) signatures are outside finding class C03-F1 altogether *)
-  Lemma trust_enveloped (x : input cert msg sig) :
-    detached x = false -> ~ blank_published blank (md x) (claimed x) ->
-    spec cert_of sign x (accept verify readable blank x).
-  Proof.
-    intros Hd Hnb. split; [apply accept_sound; intros _ _; exact Hnb|apply accept_complete].
-    split; [exact Hnb|]. intros Hd'. congruence.
-  Qed.
 
   (* corollaries named in the property text (defaults: only_md = true) *)
   Lemma unknown_issuer_rejected (x : input cert msg sig) :
     only_md x = true -> (forall e, claimed x = Some e -> lookup_md e (md x) = None) ->
     fst (accept verify readable blank x) = false.
   Proof.
-    intros Ho Hu. unfold accept, candidates. assert (E : signing_certs blank (md x) (claimed x) = []).
-    { unfold signing_certs, walk_certs. destruct (claimed x) as [e|]; [|reflexivity]. rewrite (Hu e eq_refl). reflexivity. }
+    intros Ho Hu. unfold accept, candidates, select. assert (E : signing_certs blank (md x) (claimed x) = []).
+    { unfold signing_certs. destruct (claimed x) as [e|]; [|reflexivity]. rewrite (Hu e eq_refl). reflexivity. }
     rewrite E, Ho. destruct (detached x); reflexivity.
   Qed.
 
@@ -290,26 +190,15 @@ Section Proofs.
   Qed.
 
   Lemma receiver_trust ops init only :
-    seq_spec (gspec cert_of sign verify readable blank) init only ops (run_ops verify readable blank init only ops).
+    seq_spec (spec cert_of sign blank) init only ops (run_ops verify readable blank init only ops).
   Proof. apply run_ops_spec. exact trust_holds. Qed.
-
-  (* with the default flag every verification of every life is sound, no exception *)
-  Lemma receiver_sound_default ops init :
-    seq_spec (sound cert_of sign) init true ops (run_ops verify readable blank init true ops).
-  Proof.
-    assert (H : seq_spec (fun x o => only_md x = true -> sound cert_of sign x o) init true ops
-                  (run_ops verify readable blank init true ops)).
-    { apply run_ops_spec. intros x. apply accept_sound_default. }
-    destruct H as [L H]. split; [exact L|]. intros pre q post E. destruct (H pre q post E) as [o [Hn Ho]].
-    exists o. split; [exact Hn|apply Ho; reflexivity].
-  Qed.
 
   (* the property text's "loaded metadata" made explicit: a key that the set loaded now does not
      publish for the claimed issuer does not validate, whatever an earlier set published and whatever
      was verified before the reload *)
   Lemma withdrawn_key_rejected pre mdx post q k e init only :
     q_s q = sign k (q_m q) -> q_claimed q = Some e -> only = true ->
-    ~ published_for_signing mdx e (cert_of k) ->
+    ~ published_for_signing blank mdx e (cert_of k) ->
     nth_error (run_ops verify readable blank init only (pre ++ Reload mdx :: Check q :: post)) (nchecks pre) =
       Some (accept verify readable blank (at_md mdx only q))
     /\ fst (accept verify readable blank (at_md mdx only q)) = false.
@@ -318,7 +207,7 @@ Section Proofs.
     - revert init. induction pre as [|o pre' IH]; intros init; [reflexivity|].
       destruct o as [m'| |q0]; cbn [app run_ops]; unfold nchecks in *; cbn [filter is_check length nth_error]; apply IH.
     - destruct (fst (accept verify readable blank (at_md mdx only q))) eqn:Ea; [|reflexivity]. exfalso.
-      destruct (accept_sound_default (at_md mdx only q)) as (_ & _ & H3); [exact Ho|].
+      destruct (accept_sound (at_md mdx only q)) as (_ & _ & H3).
       specialize (H3 Ea k Hs). destruct H3 as [[e' [He' Hp]]|[Hf _]].
       + cbn in He'. rewrite Hc in He'. injection He' as <-. exact (Hn Hp).
       + cbn in Hf. congruence.
@@ -352,13 +241,16 @@ Qed.
 Lemma isign_inj k k' mm : isign k mm = isign k' mm -> k = k'.
 Proof. intros [= ->]. reflexivity. Qed.
 
+Lemma iverify_readable c mm ss : iverify c mm ss = true -> ireadable c = true.
+Proof. destruct c; cbn; [reflexivity|discriminate|discriminate]. Qed.
+
 Lemma instance_trust (x : input icert imsg isig) :
-  gspec icert_of isign iverify ireadable iblank x (accept iverify ireadable iblank x).
-Proof. apply trust_holds; [exact iverify_spec|exact isign_inj]. Qed.
+  spec icert_of isign iblank x (accept iverify ireadable iblank x).
+Proof. apply trust_holds; [exact iverify_spec|exact isign_inj|exact iverify_readable]. Qed.
 
 Lemma instance_receiver ops init only :
-  seq_spec (gspec icert_of isign iverify ireadable iblank) init only ops (run_ops iverify ireadable iblank init only ops).
-Proof. apply receiver_trust; [exact iverify_spec|exact isign_inj]. Qed.
+  seq_spec (spec icert_of isign iblank) init only ops (run_ops iverify ireadable iblank init only ops).
+Proof. apply receiver_trust; [exact iverify_spec|exact isign_inj|exact iverify_readable]. Qed.
 
 (* non-vacuity: metadata with a signing, a rotated signing and an encryption-only key *)
 Example rotated_key_accepted_encryption_key_rejected :
@@ -384,22 +276,26 @@ Example rotation_over_reloads :
      (false, [Gd 2]); (true, [Gd 2]); (false, [Gd 2]); (true, [Gd 6])].
 Proof. vm_compute. reflexivity. Qed.
 
-(* the finding class is inhabited only by detached signatures: an unreadable certificate ahead of the
-   signer's one ends the loop; the XML path goes on to the next certificate *)
+(* 2dad6239: an unreadable certificate ahead of the signer's one is passed over on both paths (the XML path
+   hands it to xmlsec1, which fails on it); before the repair the detached loop ended there *)
 Example unreadable_certificate_first :
   let mdx : metadata icert := [("sp", [[(Some Signing, Jk 0); (Some Signing, Gd 1)]])] in
-  accept iverify ireadable iblank (Build_input mdx true (Some "sp") [] true 7 (isign 1 7)) = (false, [])
-  /\ accept iverify ireadable iblank (Build_input mdx true (Some "sp") [] false 7 (isign 1 7)) = (true, [Jk 0; Gd 1]).
-Proof. vm_compute. split; reflexivity. Qed.
+  accept iverify ireadable iblank (Build_input mdx true (Some "sp") [] true 7 (isign 1 7)) = (true, [Gd 1])
+  /\ accept iverify ireadable iblank (Build_input mdx true (Some "sp") [] false 7 (isign 1 7)) = (true, [Jk 0; Gd 1])
+  /\ accept_v0 iverify ireadable iblank (Build_input mdx true (Some "sp") [] true 7 (isign 1 7)) = (false, []).
+Proof. vm_compute. repeat split; reflexivity. Qed.
 
-(* a KeyDescriptor without certificate hides every key of the issuer; with the opt-in fallback on, the
-   embedded certificate is then used although metadata does publish a key for that issuer (C03-F2) *)
+(* a9edf887: a KeyDescriptor without certificate contributes nothing and hides nothing: the issuer's real key
+   validates, the embedded certificate is not used while metadata holds a key; it IS used (fallback on) when the
+   issuer publishes no key at all, a certificate-less KeyDescriptor included.  Before the repair every key of the
+   issuer was lost and the fallback trusted the embedded certificate *)
 Example keydescriptor_without_certificate :
   let mdx : metadata icert := [("idp", [[(Some Signing, Gd 1); (None, Bl 0)]])] in
-  accept iverify ireadable iblank (Build_input mdx true (Some "idp") [] false 7 (isign 1 7)) = (false, [])
-  /\ accept iverify ireadable iblank (Build_input mdx true (Some "idp") [] true 7 (isign 1 7)) = (false, [])
-  /\ accept iverify ireadable iblank (Build_input mdx false (Some "idp") [Gd 6] false 7 (isign 6 7)) = (true, [Gd 6])
+  accept iverify ireadable iblank (Build_input mdx true (Some "idp") [] false 7 (isign 1 7)) = (true, [Gd 1])
+  /\ accept iverify ireadable iblank (Build_input mdx true (Some "idp") [] true 7 (isign 1 7)) = (true, [Gd 1])
+  /\ accept iverify ireadable iblank (Build_input mdx false (Some "idp") [Gd 6] false 7 (isign 6 7)) = (false, [Gd 1])
   /\ accept iverify ireadable iblank
-       (Build_input [("idp", [[(Some Signing, Gd 1); (Some Encryption, Bl 0)]])] false (Some "idp") [Gd 6] false 7 (isign 6 7))
-     = (false, [Gd 1]).
+       (Build_input [("idp", [[(None, Bl 0)]])] false (Some "idp") [Gd 6] false 7 (isign 6 7)) = (true, [Gd 6])
+  /\ accept_v0 iverify ireadable iblank (Build_input mdx true (Some "idp") [] false 7 (isign 1 7)) = (false, [])
+  /\ accept_v0 iverify ireadable iblank (Build_input mdx false (Some "idp") [Gd 6] false 7 (isign 6 7)) = (true, [Gd 6]).
 Proof. vm_compute. repeat split; reflexivity. Qed.
